@@ -75,7 +75,12 @@ func (a *Address) UnmarshalText(input []byte) error {
 		return err
 	}
 
-	copy(a[:], decoded)
+	// the payload must be exactly one address (ToAddress checks the length)
+	addr, err := ToAddress(decoded)
+	if err != nil {
+		return err
+	}
+	*a = addr
 	return nil
 }
 
